@@ -72,8 +72,21 @@ class _SrcNode(PolarsImpl):
         return f"<pre-state node {self.name}>"
 
 
+_NO_LIMIT = []
+
+
+def no_limit():
+    """the value Cache.limit has when no LIMIT is present - read off a real source table (0 before, None after the repair
+    of the slice_head(0) sentinel), so that the pre-states are built in the representation of the code under analysis"""
+    if not _NO_LIMIT:
+        import polars as pl
+
+        _NO_LIMIT.append(H.pdt.Table(pl.DataFrame({"a": [1]}), name="probe")._cache.limit)
+    return _NO_LIMIT[0]
+
+
 class Pre:
-    def __init__(self, skel: Skeleton, tag="t", backend_cls=PolarsImpl, dtypes=None, ftypes=None, limit=0, group_by=(), is_filtered=False):
+    def __init__(self, skel: Skeleton, tag="t", backend_cls=PolarsImpl, dtypes=None, ftypes=None, limit="none", group_by=(), is_filtered=False):
         self.skel = skel
         self.tag = tag
         w = skel.w
@@ -87,7 +100,7 @@ class Pre:
         self.grp = [i for i, c in enumerate(skel.cols) if c == "grp"]
         self.facts = distinct_facts(self.phys)
         self.backend_cls = backend_cls
-        self.limit, self.group_by, self.is_filtered = limit, group_by, is_filtered
+        self.limit, self.group_by, self.is_filtered = (no_limit() if isinstance(limit, str) else limit), group_by, is_filtered
 
     def nn(self, k):
         """a new, arbitrary column name chosen by the user in this step"""
